@@ -228,6 +228,11 @@ def run_case(case: dict) -> CaseResult:
                 s.transport.feed(s.encode(pb.DisconnectRequest()))
             elif how == "silence":
                 dev.auto = set()
+            elif how in ("force", "force_wf", "local"):
+                # the application itself ends the session through the client (the manager keeps running): an expected end
+                if how == "force_wf":
+                    s.transport.write_fail = ("raise", ConnectionResetError(104, "Connection reset by peer"))
+                env.spawn(f"appdisc{i}", cli.disconnect(force=(how != "local")))
 
     for i, ev in enumerate(case["events"]):
         env.loop.sim_at(ev["t"] / 64, do_event, ev, i)
@@ -293,6 +298,8 @@ def judge(env, world, case, viol, classes) -> None:
     listening = False
     listen_zc: set = set()
     in_on_connect = False
+    truth_of: dict = {}
+    last_truth = None
     disc_cb = None             # (call time, stale slot instants) of the on_disconnect callback currently running / last run
     record_in_error_cb = False  # a matching record reached the manager while the user's on_connect_error callback was still running
     must_listen_since = None   # set at a failure report: from then on (later instants) a named, started, idle manager must be registered
@@ -468,7 +475,18 @@ def judge(env, world, case, viol, classes) -> None:
                 viol.append(V("c18:callbacks-overlap", f"on_disconnect invoked at t={t:.6f} while the on_connect callback of that session had not returned yet (strictly alternating calls)"))
             cb_seq.append("d")
             phase = "in_callback"  # the manager holds its lock until the user's callback has returned
-            disc_cb = {"t0": t, "stale": list(slot), "expected": e["expected"], "t1": None}
+            prev_d = next((x for x in reversed(tr) if x["kind"] == "rl_on_disconnect" and x["seq"] < e["seq"]), None)
+            # the first decisive ending injected into this session (a graceful one stays graceful whatever follows it)
+            cause = next((x for x in tr if x["kind"] == "end_injected" and x["seq"] < e["seq"] and (prev_d is None or prev_d["seq"] < x["seq"])
+                          and x["how"] in ("discreq", "force", "force_wf", "local", "reset")), None)
+            truth = e["expected"]
+            if cause is not None:
+                truth = cause["how"] != "reset"
+                if bool(e["expected"]) != truth:
+                    viol.append(V(f"c18:on_disconnect-flag:{e['expected']}-for-{cause['how']}", f"session ended by '{cause['how']}' at t={cause['t']:.6f}: on_disconnect({e['expected']})"))
+            truth_of[e["seq"]] = truth
+            last_truth = truth
+            disc_cb = {"t0": t, "stale": list(slot), "expected": truth, "t1": None}
         elif k == "rl_on_disconnect_ret":
             if phase == "in_callback":
                 phase = "idle"
@@ -479,7 +497,7 @@ def judge(env, world, case, viol, classes) -> None:
                 # running: it is already "waiting", the reaction can only start once the callback has returned
                 justified_now.append((t, "matching mDNS record (force-delivered) during the on_disconnect callback", False))
             if not stopped and phase == "idle":
-                if e["expected"]:
+                if last_truth if last_truth is not None else e["expected"]:
                     slot = [t + 5.0]
                     slot_mandatory = True
                     classes.add("expected_cooldown")
@@ -579,7 +597,7 @@ def _case(draw, tier):
         if r <= 3:
             events.append({"t": tt, "do": "mdns", "rec": draw(st.sampled_from(["ptr", "a", "ptr", "other_ptr", "other_a", "ptr_wrong_type", "a_wrong_type", "other_txt", "other_aaaa", "other_srv", "other_nsec"])), "force": draw(st.booleans())})
         elif r <= 6:
-            events.append({"t": tt, "do": "end", "how": draw(st.sampled_from(["reset", "discreq", "discreq", "silence"]))})
+            events.append({"t": tt, "do": "end", "how": draw(st.sampled_from(["reset", "discreq", "discreq", "silence", "force", "force_wf", "local"]))})
         elif r == 7:
             events.append({"t": tt, "do": draw(st.sampled_from(["stop", "stop_cb"]))})
             events.append({"t": tt + draw(st.sampled_from([0, 1, 64, 640])), "do": "start"})
@@ -618,7 +636,16 @@ def _derived_name_cases():
             yield {"named": False, "addr": addr, "K": 4.0, "plan": [["refuse", 2], ["refuse", 2], ["ok"]], "events": [{"t": 0, "do": "start"}, {"t": 64 * 4, "do": "mdns", "rec": rec}], "horizon": 120}
 
 
+def _local_end_cases():
+    """The application ends the session itself (force / graceful, also with the DisconnectRequest write failing)
+    while the manager runs: an expected end, the next attempt comes after the 5 s cool-down."""
+    for how in ("force", "force_wf", "local"):
+        for after in ([["ok"]], [["refuse", 2], ["ok"]]):
+            yield {"named": True, "addr": "ip", "K": 4.0, "plan": [["ok"]] + after, "events": [{"t": 0, "do": "start"}, {"t": 128, "do": "end", "how": how}], "horizon": 60}
+
+
 def enumerated(tier):
+    yield from _local_end_cases()
     yield from _derived_name_cases()
     yield from _mdns_addr_cases()
     # exact back-off ladder: k failures then success, for every failure kind
